@@ -7,7 +7,7 @@ from .common import *
 
 META = {
     'title': 'one-shot independence: for every entry point the attributes read before written are disjoint from everything any method writes after construction (interprocedural effect analysis incl. padding/counter sub-objects, generators, save/restore, memo and index-range idioms)',
-    'expected_min': 45,
+    'expected_min': 81,
     'explanation': 'For each of the 25 object kinds the analysis computes exposed(E) (attribute paths of self, including paths into the padding/counter '
                    'objects it owns, that entry point E may read before writing them) and W (paths any method other than the constructor may write). '
                    'exposed(E) and W must be disjoint; since exposure is computed at entry it also covers an earlier call that ended in an error. '
